@@ -3,7 +3,7 @@
 use serde_json::Value;
 
 use crate::fw::{Batch, CheckSpec, Tier, drive};
-use crate::{Args, eng_codec, eng_disk, eng_hist, eng_rdf, eng_sched, eng_store, eng_txm};
+use crate::{Args, eng_codec, eng_disk, eng_hist, eng_rdf, eng_sched, eng_snap, eng_store, eng_txm};
 
 const REAL_TXM: &[&str] = &["grafeo_engine::transaction::TransactionManager (all of manager.rs)"];
 
@@ -14,6 +14,7 @@ pub fn run_check(id: &str, args: &Args) -> i32 {
         "C14" => c14(args),
         "C20" => c20(args),
         "C13" => c13(args),
+        "C07" => c07(args),
         "C15" => c15(args),
         "C01" => c_hist(args, "C01"),
         "C02" => c_hist(args, "C02"),
@@ -295,6 +296,23 @@ fn c15(args: &Args) -> i32 {
     drive(batch, &|seed, _i| eng_codec::run_one(seed, thorough), Some(&eng_codec::minimise), &mut |_| {})
 }
 
+fn c07(args: &Args) -> i32 {
+    let thorough = args.tier == Tier::Thorough;
+    let spec = CheckSpec {
+        property: "C07",
+        check_name: "C07",
+        level: "exploration",
+        engine: "SNAP",
+        rule: "a source database is built by a generated mutation history (every direct-API mutation with every value class incl. NaN, nested lists/maps, empty strings, zero-length vectors; deletions leaving sparse ids; in a fifth of the runs committed session transactions), then copied by one of export->import, save->open, to_memory, save->open_in_memory; the copy's dump (iteration + point lookups of every id ever handed out + fixed queries) must equal the reference graph, the source must be unchanged, two exports must be byte-equal; then the exported blob is damaged (every truncation length in a third of the runs, up to 24/60 random single-bit flips) and import must neither panic nor return a database that disagrees with an independent decode of the same bytes. Non-trivial = non-empty graph; distinct = distinct (route, faults, operation list)".into(),
+        real: vec!["GrafeoDB::{export_snapshot, import_snapshot, save, open, to_memory, open_in_memory}", "bincode/serde encoding of Value", "WAL (save/open routes, on tmpfs)"],
+        stub: vec![],
+        assumptions: vec!["floats compared bitwise".into(), "a damaged blob that still decodes as a version-1 snapshot is a valid snapshot (import may accept it, but must then be complete: as many distinct nodes/edges as the bytes decode to)".into()],
+        unchecked: vec!["wasm binding wrapper".into(), "plain delete of nodes that still have edges (dangling edges are the store's documented behaviour)".into()],
+    };
+    let batch = Batch { spec, tier: args.tier, seed: args.seed, runs: runs(args, 6_000, 400_000), workers: args.workers };
+    drive(batch, &|seed, i| eng_snap::run_one(seed, i, thorough), Some(&eng_snap::minimise), &mut |_| {})
+}
+
 pub fn replay_file(path: &str) -> i32 {
     let text = match std::fs::read_to_string(path) {
         Ok(t) => t,
@@ -320,6 +338,7 @@ pub fn replay_file(path: &str) -> i32 {
         Some("SCHED") => eng_sched::replay(rep, &prop),
         Some("HIST") => eng_hist::replay(rep),
         Some("RDF") => eng_rdf::replay(rep),
+        Some("SNAP") => eng_snap::replay(rep),
         Some("CODEC") => eng_codec::replay(rep),
         other => {
             eprintln!("harness error: unknown engine {other:?} in {path}");
